@@ -1,7 +1,7 @@
 (** C41: printers used by the correspondence check only. *)
 From Coq Require Import List NArith ZArith Bool String.
 From TwLib Require Import Show.
-From C41 Require Import Gen Model.
+From C41 Require Import Gen Model B64.
 Import ListNotations.
 Local Open Scope string_scope.
 
@@ -15,8 +15,9 @@ Fixpoint list_eqb (a b : list N) : bool :=
   | _, _ => false
   end.
 
-(** the oracle as tables: what modified_base64 returned for each run of the input, and what
-    modified_unbase64 returned (None = it raised) for each shift sequence of the encoded text *)
+(** encoding cases run the RFC 3501 layer of B64.v; for raw DECODING cases (arbitrary, possibly
+    malformed shift sequences, where CPython's utf-7 decoder has its own error rules) the layer is
+    an oracle table: what modified_unbase64 returned (None = it raised) for each shift sequence *)
 Definition tab_enc (t : list (list N * list N)) (run : list N) : list N :=
   match find (fun p => list_eqb (fst p) run) t with Some p => snd p | None => [] end.
 Definition tab_dec (t : list (list N * option (list N))) (acc : list N) : option (list N) :=
@@ -25,14 +26,14 @@ Definition tab_dec (t : list (list N * option (list N))) (acc : list N) : option
 Inductive case :=
 | CXenc (s : list N)
 | CXdec (s : list N)
-| CUenc (te : list (list N * list N)) (td : list (list N * option (list N))) (s : list N)
+| CUenc (s : list N)
 | CUdec (td : list (list N * option (list N))) (s : list N).
 
 Definition run_show (c : case) : string :=
   match c with
   | CXenc s => show_hex (xtext_encode s) ++ " " ++ show_res (xtext_decode (xtext_encode s))
   | CXdec s => show_res (xtext_decode s)
-  | CUenc te td s => show_hex (utf7_encode (tab_enc te) s) ++ " "
-                     ++ show_res (utf7_decode (tab_dec td) (utf7_encode (tab_enc te) s))
+  | CUenc s => show_hex (utf7_encode mb64_encode s) ++ " "
+                ++ show_res (utf7_decode mb64_decode (utf7_encode mb64_encode s))
   | CUdec td s => show_res (utf7_decode (tab_dec td) s)
   end.
